@@ -396,7 +396,34 @@ class Interp:
             exprs = [bexpr]
         toks = []
         i = 0
-        for t in a.toks:
+        # a conversion whose width is itself a formatted value:
+        # "%0" + str(width) + "d"
+        src = list(a.toks)
+        k = 0
+        merged = []
+        while k < len(src):
+            t = src[k]
+            if (t[0] == "L" and re.search(r"%[-+ #0]*$", t[1])
+                    and k + 2 < len(src) and src[k + 1][0] == "V"
+                    and src[k + 2][0] == "L"
+                    and re.match(r"[sdifrx]", src[k + 2][1])):
+                head = re.sub(r"%[-+ #0]*$", "", t[1])
+                merged.append(("L", head))
+                merged.append(("W", src[k + 1][1]))
+                merged.append(("L", src[k + 2][1][1:]))
+                k += 3
+                continue
+            merged.append(t)
+            k += 1
+        for t in merged:
+            if t[0] == "W":
+                if i < len(exprs):
+                    toks.append(("V", key_of(exprs[i], self.selfname)))
+                else:
+                    toks.append(("V", "?"))
+                i += 1
+                self.widths = getattr(self, "widths", set()) | {t[1]}
+                continue
             if t[0] != "L":
                 toks.append(t)
                 continue
